@@ -267,6 +267,7 @@ def run(ctx, res):
     # ---- properties this one rests on (re-run here, labelled <this>.D.<rule>) ------------------
     depends(ctx, res, 'C20', None, 'every byte the writer produces must reach the file whatever write(2) does')
     depends(ctx, res, 'C16', None, 'lengths and offsets in the file are written and read with these codecs')
+    depends(ctx, res, 'C10', ('C10.R1', 'C10.R2'), 'the reader finds the index block through the trailer: its offset and size fields must be the place and extent the index was written at')
 
     # ---- block builder under tight buffers
     from . import bbrule
